@@ -1,4 +1,5 @@
 import Mathlib.Tactic.Ring
+import Mathlib.Tactic.Linarith
 import Mathlib.Data.Real.Basic
 import DuneVerif.Model.C08T
 /-!
@@ -73,9 +74,44 @@ end leaves
 section
 variable (sqrt : ℝ → ℝ)
 
+/-- the hand-written `eig0` with its maximum search (`dmax`, `imax`) written as a decision tree -/
+def eig0Tree {K : Type} [Add K] [Sub K] [Mul K] [Div K] [LT K] [DecidableLT K] [NatCast K]
+    (sqrt : K → K) (A : M3 K) (ev : K) : V3 K :=
+  let S := shift3 A ev
+  let r0 : V3 K := ⟨S.a00, S.a01, S.a02⟩
+  let r1 : V3 K := ⟨S.a10, S.a11, S.a12⟩
+  let r2 : V3 K := ⟨S.a20, S.a21, S.a22⟩
+  let c01 := cross r0 r1
+  let c02 := cross r0 r2
+  let c12 := cross r1 r2
+  let d0 := sqrt (norm2_3 c01)
+  let d1 := sqrt (norm2_3 c02)
+  let d2 := sqrt (norm2_3 c12)
+  if d0 < d1 then
+    (if d1 < d2 then ⟨c12.x / d2, c12.y / d2, c12.z / d2⟩ else ⟨c02.x / d1, c02.y / d1, c02.z / d1⟩)
+  else
+    (if d0 < d2 then ⟨c12.x / d2, c12.y / d2, c12.z / d2⟩ else ⟨c01.x / d0, c01.y / d0, c01.z / d0⟩)
+
+/-- independent of the translated tables: running maximum + index = decision tree (purely propositional) -/
+theorem eig0_eq_tree (A : M3 ℝ) (ev : ℝ) : eig0 sqrt A ev = eig0Tree sqrt A ev := by
+  unfold eig0 eig0Tree
+  simp only []
+  split_ifs <;> first | rfl | (exfalso; simp_all)
+
+/-- **semantic tie of the selection**: for all lengths `d` (over ℝ) and all candidates, the decision tree read off the
+current source selects what the hand-written maximum search selects.  `rfl` when the trees coincide; otherwise every
+combination of comparison outcomes is checked (contradictory combinations by `linarith`), so a differently shaped but
+equivalent search (other order of the tests, `<=` with exchanged branches) is accepted and a different choice is not. -/
+theorem eig0_select_sem {β : Type} (d : Nat → ℝ) (leaf : Nat → Nat → β) :
+    evalSel d leaf Gen.eig0_select = evalSel d leaf eig0_handTree := by
+  first
+    | rfl
+    | (simp only [Gen.eig0_select, eig0_handTree, evalSel]; split_ifs <;> first | rfl | (exfalso; linarith))
+
 theorem eig0T_eq (A : M3 ℝ) (ev : ℝ) : eig0T sqrt A ev = eig0 sqrt A ev := by
+  rw [eig0_eq_tree]
   unfold eig0T
-  simp only [eig0_row0_eq, eig0_row1_eq, eig0_row2_eq]
+  simp only [eig0_row0_eq, eig0_row1_eq, eig0_row2_eq, eig0_select_sem]
   rfl
 
 theorem orthoCompT_eq (e : V3 ℝ) : orthoCompT sqrt e = orthoComp sqrt e := by
